@@ -17,7 +17,7 @@ LIB_SRCS = ["harness/dl_lib_a.c", "harness/dl_lib_b.c"]
 
 
 def _libs_dir():
-    h = hashlib.sha256()
+    h = hashlib.sha256(b"defsym vdl_null=0 in a;")
     for s in LIB_SRCS:
         with open(os.path.join(framework.ROOT, s), "rb") as f:
             h.update(f.read())
@@ -36,7 +36,9 @@ def build_libs():
         shutil.rmtree(tmp, ignore_errors=True)
         os.makedirs(tmp)
         for src, out in zip(LIB_SRCS, ("libvdl_a.so", "libvdl_b.so")):
-            rc, o = framework.sh(["gcc", "-shared", "-fPIC", "-O1", "-o", os.path.join(tmp, out), os.path.join(framework.ROOT, src)], timeout=300)
+            # library a also DEFINES a symbol whose value is NULL (absolute symbol): a successful look-up that yields a null address
+            extra = ["-Wl,--defsym,vdl_null=0"] if out == "libvdl_a.so" else []
+            rc, o = framework.sh(["gcc", "-shared", "-fPIC", "-O1"] + extra + ["-o", os.path.join(tmp, out), os.path.join(framework.ROOT, src)], timeout=300)
             if rc != 0:
                 raise framework.BuildError("cannot build %s: %s" % (out, o))
         shutil.rmtree(VDL_DIR, ignore_errors=True)
@@ -47,13 +49,13 @@ def build_libs():
 # world of the harness (must agree with d_world in ocaml/own_driver.ml and with dl_driver.cpp):
 #   file 0 = libvdl_a.so, 1 = libvdl_b.so, 2 = the program itself, >= 3 missing
 #   symbol 0 = vdl_f (a, b), 1 = vdl_g (a, b and — a different function — the program), 2 = vdl_only_a (a),
-#   3 = vdl_self (program), >= 4 missing
+#   3 = vdl_self (program), 4 = vdl_null (a; DEFINED with the value NULL: the look-up succeeds, it is never called), >= 5 missing
 def lib_exists(f):
     return f < 3
 
 
 def sym_exists(lib, s):
-    return (lib < 2 and s < 2) or (lib == 0 and s == 2) or (lib == 2 and s in (1, 3))
+    return (lib < 2 and s < 2) or (lib == 0 and s in (2, 4)) or (lib == 2 and s in (1, 3))
 
 
 def d_alphabet(P, files, syms, xs=(5,), scoped=None, reads=(0, 1, 2), cats="all"):
@@ -76,7 +78,7 @@ def d_alphabet(P, files, syms, xs=(5,), scoped=None, reads=(0, 1, 2), cats="all"
                         t = [x for x in range(P) if x not in (i, j)]
                         if t:
                             ops.append(("lt", i, j, t[0], s))   # load on a temporary copy (scratch slot t)
-                    if s >= 4:
+                    if s >= 5:
                         ops.append(("lq", i, j, s))
                 ops += [("gt", i, j), ("cp", i, j), ("mv", i, j), ("sw", i, j)]
     for i in range(P):
@@ -246,7 +248,8 @@ class C19(Check):
                   "(load() is not const, so a const library object cannot load). Symbol vdl_g exists in the libraries AND, as a "
                   "different function, in the -rdynamic host program, so a look-up that searches the global scope instead of the "
                   "library is seen in the call result; dlsym(NULL, ...) is also counted by the wrapper. "
-                  "A symbol whose address is legally NULL is not exercised. The correspondence is bounded-exhaustive + sampled, "
+                  "Library a defines vdl_null with the value NULL (-Wl,--defsym): its look-up must succeed (the symbol object exists and owns "
+                  "the library; it is never called), also right after a failed look-up and after a stale loader error. The correspondence is bounded-exhaustive + sampled, "
                   "not proved.")
     rule = ("env: every sequence of depth 3 (thorough: 4) over {setenv, unsetenv, get with default, get with the defaulted default, "
             "get without default} x 2 names x values/defaults {'', 'x'}, then random sequences with names and values over arbitrary "
@@ -343,13 +346,13 @@ class C19(Check):
         for seq in d_exhaustive(3, (0, 1, 5), (0, 2, 7), 3, scoped=[(0, 7), (5, 0)], reads=(0,)):
             yield d_case(3, seq), "dl-exh"
         # every value category of the library object load() is called on, followed by one more operation (call / destroy / ...)
-        for seq in d_exhaustive(3, (0, 1, 2), (0, 1, 3, 7), 3 if not quick else 2, scoped=[(0, 0), (0, 1), (1, 1), (2, 1), (0, 7)], cats="all"):
+        for seq in d_exhaustive(3, (0, 1, 2), (0, 1, 3, 4, 7), 3 if not quick else 2, scoped=[(0, 0), (0, 1), (1, 1), (2, 1), (0, 4), (0, 7)], cats="all"):
             yield d_case(3, seq), "dl-exh-load-categories"
         if not quick:
             for seq in d_exhaustive(3, (0, 1, 5), (0, 2, 7), 4):
                 yield d_case(3, seq), "dl-exh4"
         # ---- dl, random
-        alpha = d_alphabet(4, (0, 1, 2, 5, 6), (0, 1, 2, 3, 7, 8), xs=(0, 5, 11))
+        alpha = d_alphabet(4, (0, 1, 2, 5, 6), (0, 1, 2, 3, 4, 7, 8), xs=(0, 5, 11))
         for _ in range(4000 if quick else 40000):
             L = rng.randint(3, 10 if quick else 16)
             st = (None,) * 4
@@ -372,7 +375,7 @@ class C19(Check):
         # ---- dl, structured: two library objects (same or different files) with a symbol each, then assignments / swaps
         #      between the existing objects, destructions in random order and calls through whatever symbols survive
         alpha5 = d_alphabet(5, (0, 1, 2), (0, 1, 2, 3), xs=(1, 7))
-        good_sym = {0: (0, 1, 2), 1: (0, 1), 2: (3,)}
+        good_sym = {0: (0, 1, 2, 4), 1: (0, 1), 2: (3,)}
         for _ in range(2500 if quick else 25000):
             fa, fb = rng.choice([0, 1, 2]), rng.choice([0, 1, 2])
             seq = [("op", 0, fa), ("op", 1, fb), ("ld", 2, 0, rng.choice(good_sym[fa])), ("ld", 3, 1, rng.choice(good_sym[fb]))]
